@@ -29,7 +29,7 @@ def wrap_trace(tid, rng, stacking):
     stub = rng.choice(["reg", "clf", "trans", "utrans"])
     classes = sorted(rng.sample([0, 1, 2, 5, 7], rng.choice([2, 3]))) if stub == "clf" else []
     method = {"reg": "predict", "trans": "transform", "utrans": "transform", "clf": rng.choice(["predict", "predict_proba"])}[stub]
-    mk = {"reg": stubs.RecReg, "clf": stubs.RecClf2, "trans": stubs.RecTrans, "utrans": stubs.RecTransU}[stub]
+    mk = {"reg": rng.choice([stubs.RecReg, stubs.RecRegFP]), "clf": stubs.RecClf2, "trans": stubs.RecTrans, "utrans": stubs.RecTransU}[stub]
     nm = rng.randint(2, 4) if stacking else 1
     inner = [mk() for _ in range(nm)]
     if stacking:
@@ -52,8 +52,9 @@ def wrap_trace(tid, rng, stacking):
         with warnings.catch_warnings():
             warnings.simplefilter("ignore")
             try:
+                ft = None
                 if rng.random() < 0.4:      # the one-call form (what a Pipeline uses for its inner steps)
-                    w.fit_transform(X, y) if sw is None else w.fit_transform(X, y, sample_weight=sw)
+                    ft = w.fit_transform(X, y) if sw is None else w.fit_transform(X, y, sample_weight=sw)
                     ret = w
                 else:
                     ret = w.fit(X, y) if sw is None else w.fit(X, y, sample_weight=sw)
@@ -69,7 +70,11 @@ def wrap_trace(tid, rng, stacking):
             f = byobj.get(id(m))
             mem.append(dict(rows=f["rows"], ys=f["ys"], ws=f.get("ws", [])) if f else dict(rows=[], ys=[], ws=[]))
         t["ev"].append(dict(a="fit", rows=[int(v) for v in X[:, 0]], ys=[] if y is None else [int(v) for v in y], ws=[] if sw is None else [int(v) for v in sw],
-                            members=mem, returns_self=ret is w))
+                            members=mem, returns_self=ret is w, ft_equal=True))
+        if ft is not None:
+            # fit_transform(X) is fit(X) followed by transform(X)
+            again = w.transform(X)
+            t["ev"][-1]["ft_equal"] = bool(numpy.asarray(ft).shape == numpy.asarray(again).shape and numpy.array_equal(ft, again))
         P = numpy.array([list(X[rng.randrange(n)]) for _ in range(3)] + [[900 + q, 1.0] for q in range(2)], dtype=numpy.float64)
         out = w.transform(P)
         for q in range(P.shape[0]):
@@ -168,6 +173,32 @@ def real_models(ctx, rng, count):
                 ctx.violation("StackIsConcat", SITE_S, "real models, mixed integer / float outputs", "transform is not the column concatenation")
 
 
+def warm_transfer(ctx, rng, count):
+    """a trainable copy of an estimator that continues from its fitted state (warm start): training the copy is what
+    training a copy of the estimator directly would be"""
+    import copy
+    from mlinsights.mlmodel import TransferTransformer
+    for _ in range(count):
+        Xp, yp = data(rng, rng.randint(3, 7), None, 500)
+        X, y = data(rng, rng.randint(3, 8))
+        est = stubs.CarryReg(shift=float(rng.randint(1, 5))).fit(Xp, yp)
+        want = copy.deepcopy(est).fit(X, y).predict(X)
+        ctx.evaluations += 1
+        with warnings.catch_warnings():
+            warnings.simplefilter("ignore")
+            try:
+                tt = TransferTransformer(est, method="predict", copy_estimator=True, trainable=True).fit(X, y)
+                got = numpy.asarray(tt.transform(X), dtype=float).ravel()
+            except Exception as e:
+                ctx.violation("CallSucceeds", SITE_T, "copy=True trainable=True warm", repr(e)[:200])
+                continue
+        if got.shape != want.shape or not numpy.allclose(got, want, rtol=0, atol=1e-9):
+            ctx.violation("TrainsLikeDirect", SITE_T, "copy=True trainable=True warm",
+                          dict(got=got[:3].tolist(), want=want[:3].tolist()))
+        if getattr(est, "n_fits_", 0) != 1:
+            ctx.violation("OriginalUntouched", SITE_T, "copy=True trainable=True warm", "the caller's estimator was trained again")
+
+
 def classify(t, v):
     if v.fails:
         return v.fails[0][0], t.get("sig", "")
@@ -188,6 +219,7 @@ def run(ctx):
         t = transfer_trace(k + 1, rng) if kind == "transfer" else wrap_trace(k + 1, rng, kind == "stacking")
         ctx.case((kind, t["sig"], str(t["ev"])[:300]), sample=dict(kind=kind, sig=t["sig"], ev=t["ev"][:3]))
         traces.append(t)
+    warm_transfer(ctx, rng, 40 if thorough else 8)
     verdicts, st = tlc.validate("WrappersTrace", "WrappersTrace.cfg", traces)
     ctx.states += st["states"]
     ctx.transitions += st["transitions"]
